@@ -149,6 +149,47 @@ pub fn check(case: &Case, _tier: Tier) -> Outcome {
       o.violate("C18/module-differs-from-original", format!("{}", m.specifier()));
     }
   }
+  // the package tables: what the modules of the segment ask of the registry
+  // resolves as in the original, and their packages are known with the same
+  // used exports
+  {
+    use deno_graph::source::JsrUrlProvider;
+    let provider = deno_graph::source::DefaultJsrUrlProvider;
+    let mut reqs = 0;
+    for m in seg.modules() {
+      for dep in m.dependencies().values() {
+        for r in [&dep.maybe_code, &dep.maybe_type] {
+          let Some(t) = r.maybe_specifier() else { continue };
+          if t.scheme() != "jsr" {
+            continue;
+          }
+          let Ok(req_ref) = deno_semver::jsr::JsrPackageReqReference::from_specifier(t) else { continue };
+          reqs += 1;
+          let a = orig.packages.mappings().get(req_ref.req());
+          let b = seg.packages.mappings().get(req_ref.req());
+          if a != b {
+            o.violate(
+              "C18/package-requirement-resolves-differently",
+              format!("{} imports {t}: original -> {a:?}; segment -> {b:?}", m.specifier()),
+            );
+          }
+        }
+      }
+      if let Some(nv) = provider.package_url_to_nv(m.specifier()) {
+        let a = orig.packages.package_exports(&nv);
+        let b = seg.packages.package_exports(&nv);
+        if a != b {
+          o.violate(
+            "C18/package-exports-differ",
+            format!("{nv} (of {}): original -> {a:?}; segment -> {b:?}", m.specifier()),
+          );
+        }
+      }
+    }
+    if reqs > 0 {
+      o.label("segment-with-registry-requirements");
+    }
+  }
   // validation verdicts from the segment roots
   let ov = orig
     .walk(
